@@ -13,6 +13,7 @@ type Run struct {
 	Obs     [][]Status // statuses of all threads after each step
 	Final   []Status
 	Choices [][]string // enabled threads before each step (in exploration order)
+	Passed  []string   // label of the scheduling point the released thread was parked at, per step
 	Err     string
 }
 
@@ -57,11 +58,18 @@ func RunSchedule(setup func(c *Ctl) (finish func(r *Run)), prefix []string, orde
 			pick = prefix[step]
 		}
 		r.Choices = append(r.Choices, en)
+		passed := ""
+		for _, st := range cur {
+			if st.Name == pick && st.State == "at" {
+				passed = st.Label
+			}
+		}
 		if err := ctl.Step(pick); err != nil {
 			r.Err = err.Error()
 			break
 		}
 		r.Sched = append(r.Sched, pick)
+		r.Passed = append(r.Passed, passed)
 		r.Obs = append(r.Obs, ctl.Statuses())
 	}
 	r.Final = ctl.Statuses()
@@ -173,11 +181,18 @@ func runRandomOnce(setup func(c *Ctl) (finish func(r *Run)), order map[string]in
 		sort.SliceStable(en, func(i, j int) bool { return order[en[i]] < order[en[j]] })
 		p := en[pick(len(en))]
 		r.Choices = append(r.Choices, en)
+		passed := ""
+		for _, st := range cur {
+			if st.Name == p && st.State == "at" {
+				passed = st.Label
+			}
+		}
 		if err := ctl.Step(p); err != nil {
 			r.Err = err.Error()
 			break
 		}
 		r.Sched = append(r.Sched, p)
+		r.Passed = append(r.Passed, passed)
 		r.Obs = append(r.Obs, ctl.Statuses())
 	}
 	r.Final = ctl.Statuses()
